@@ -19,7 +19,11 @@ TPed == /\ IsEv("pedersen")
         /\ r.params = "generated" => /\ r.generators_distinct                              \* fresh generators: h, g_1 .. g_N pairwise different
                                      /\ \A i \in 1..Len(r.combined) : ~r.combined[i].verdict
         /\ r.other.verdict = ~r.other.differs
-TNext == TPed
+(* a parameter object has no memory: what it commits with is what it holds now *)
+TLife == /\ IsEv("pedersen_lifecycle")
+         /\ r.before_ok /\ r.after_ok /\ r.equal_to_source
+         /\ ~r.old_commitment_opens_under_new_generators
+TNext == TPed \/ TLife
 TSpec == l = 1 /\ [][TNext]_l
 Accepted ==
   LET n == TLCGet("stats").diameter - 1 IN
